@@ -16,6 +16,8 @@ package testing
 //@   ensures[C19 once] neverCancelled(ctx) && dynIs(msg, "types.NodeInformation") && ni != nil && old(ni.Id) != "" && old(rtHas(t, "nodeinfo/" + ni.Id)) ==>
 //@   |   err != nil && isDuplicate(err)
 //@   ensures[C19 kept] dynIs(msg, "types.NodeInformation") && err != nil ==> sameView(t)
+// ... and only then: a node record that is absent (never stored, or removed) is not refused as a duplicate
+//@   ensures[C19 onlyoverwrite] dynIs(msg, "types.NodeInformation") && ni != nil && !old(rtHas(t, "nodeinfo/" + ni.Id)) ==> !isDuplicate(err)
 //@   ensures[C19 stored] err == nil ==> rtHas(t, pathFor(msg)) && encodes(rtBytes(t, pathFor(msg)), msg) && sameViewBut(t, pathFor(msg))
 //@   ensures[C19 wf] wfStorage(ts.Storage)
 //@   modifies tree(ts.Storage.root)
